@@ -35,6 +35,7 @@ class StoreFact:
     k_lo: Optional[Rat] = None
     k_hi: Optional[Rat] = None
     guard: Tuple[Val, ...] = ()
+    single: bool = False  # a single sample written directly in the interval loop (lo = its sample number, hi = lo + 1)
 
     def loc(self):
         return self.event.loc()
@@ -81,18 +82,21 @@ def is_window_quantity(r: Rat) -> bool:
 _STRATEGY_CACHE: Dict[tuple, 'Strategy'] = {}
 
 
-def strategy(prog: Program, clsname: str, a_given: bool = False, inline_adapt: bool = False) -> 'Strategy':
-    key = (id(prog), id(sym.ATOMS), clsname, a_given, inline_adapt)
+def strategy(prog: Program, clsname: str, a_given: bool = False, inline_adapt: bool = False, tie: Optional[frozenset] = None) -> 'Strategy':
+    """`tie`: the window quantities assumed zero, as keys ('AL' | 'AR' | 'BL' | 'BR', offset from k); None = general position (none is zero)"""
+    key = (id(prog), id(sym.ATOMS), clsname, a_given, inline_adapt, tie)
     if key not in _STRATEGY_CACHE:
-        _STRATEGY_CACHE[key] = Strategy(prog, prog.cls(RFA + clsname), a_given, inline_adapt)
+        _STRATEGY_CACHE[key] = Strategy(prog, prog.cls(RFA + clsname), a_given, inline_adapt, tie)
     return _STRATEGY_CACHE[key]
 
 
 class Strategy:
-    def __init__(self, prog: Program, cls: ClassInfo, a_given: bool = False, inline_adapt: bool = False):
+    def __init__(self, prog: Program, cls: ClassInfo, a_given: bool = False, inline_adapt: bool = False, tie: Optional[frozenset] = None):
         self.prog = prog
         self.cls = cls
         self.a_given = a_given
+        self.tie = tie
+        self.unkeyed: List[str] = []
         self.issues: List[str] = []
         self.m = sym.sym('m')
         self.n = sym.sym('n')
@@ -180,31 +184,65 @@ class Strategy:
         self.decided: List[str] = getattr(self, 'decided', [])
         self._collect()
 
+    def window_key(self, r: Rat) -> Optional[Tuple[str, int]]:
+        """('AL' | 'AR', c) for entry k + c of the left / right window table, ('BL' | 'BR', c) for int(beta * entry)"""
+        def entry(a) -> Optional[Tuple[str, int]]:
+            if sym.ATOMS.head(a) != 'el':
+                return None
+            ref, ix = sym.ATOMS.args(a)
+            t = ref.term if isinstance(ref, Ref) else None
+            if not (isinstance(t, Term) and t.head == 'item' and len(t.args) == 2 and isinstance(t.args[1], Const) and t.args[1].v in (0, 1)):
+                return None
+            if not (isinstance(t.args[0], Term) and t.args[0].head == 'call:' + ADAPT):
+                return None
+            syms = [b for b in ix.atoms() if sym.ATOMS.head(b) == 'sym']
+            if len(syms) != 1:
+                return None
+            c = ix - Rat.atom(syms[0])
+            if not (c.is_const() and c.const_value().denominator == 1):
+                return None
+            return ('AL' if t.args[1].v == 0 else 'AR', int(c.const_value()))
+        ats = list(r.atoms())
+        if len(ats) != 1 or not (r == Rat.atom(ats[0])):
+            return None
+        a = ats[0]
+        k_ = entry(a)
+        if k_ is not None:
+            return k_
+        if sym.ATOMS.head(a) == 'Int':
+            inner = [entry(b) for b in sym.all_atoms(sym.ATOMS.args(a)[0])]
+            inner = [x for x in inner if x is not None]
+            if len(inner) == 1:
+                return ('B' + inner[0][0][1], inner[0][1])
+        return None
+
     def _decide_window_zero(self, p: Val) -> Optional[bool]:
-        def is_zero_test(q):
+        def zero_test(q) -> Optional[Rat]:
             if isinstance(q, P) and q.op == '==':
                 a, b = q.args
                 for u, v in ((a, b), (b, a)):
                     if isinstance(u, Num) and u.is_const() and u.const() == 0 and isinstance(v, Num) and v.length is None \
                             and is_window_quantity(v.r) and not v.r.is_const():
-                        return True
-            return False
-        def tri(q) -> Optional[bool]:
-            """three-valued evaluation of a predicate whose zero-window tests are all false"""
-            if is_zero_test(q):
-                return False
-            if isinstance(q, P) and q.op == '!=' and is_zero_test(P('==', *q.args)):
-                return True
-            if isinstance(q, P) and q.op == 'not':
-                t = tri(q.args[0])
-                return None if t is None else not t
-            if isinstance(q, P) and q.op in ('and', 'or'):
-                ts = [tri(a) for a in q.args]
-                if q.op == 'and':
-                    return False if any(t is False for t in ts) and all(t is not None for t in ts) else (True if all(t is True for t in ts) else None)
-                return True if any(t is True for t in ts) and all(t is not None for t in ts) else (False if all(t is False for t in ts) else None)
+                        return v.r
             return None
-        t = tri(p)
+
+        def leaf(q) -> Optional[bool]:
+            r = zero_test(q)
+            if r is None:
+                return None
+            if self.tie is None:
+                return False            # general position
+            key = self.window_key(r)
+            if key is None:
+                self.unkeyed.append(str(q))
+                return False
+            if key in self.tie:
+                return True
+            if key[0] in ('BL', 'BR') and ('A' + key[0][1], key[1]) in self.tie:
+                return True             # int(beta * 0) == 0
+            return False
+        from .truth import tri
+        t = tri(p, leaf)
         if t is not None:
             self.decided = getattr(self, 'decided', [])
             self.decided.append(str(p))
@@ -243,6 +281,17 @@ class Strategy:
             u = has_unsupported(vnum)
             if u:
                 raise AnalysisError(f"store value at {e.loc()} contains an uninterpreted construct: {u}")
+            if len(loops) == 1 and loops[0].kind == 'range':
+                # one sample of interval k written directly in the interval loop: a range of one sample
+                kctx = loops[0]
+                mapping = {_atom(kctx.sym): self.k}
+                flat = sym.subst(idx.r, mapping)
+                i0 = flat - self.k * self.n
+                sf = StoreFact(e, i0, i0 + C(1), flat, sym.subst(vnum.r, mapping), strip_state(e.data['base']), sym.subst(kctx.lo, mapping),
+                               sym.subst(kctx.hi, mapping), tuple(g.subst(lambda r: sym.subst(r, mapping)) for g in e.guard))
+                sf.single = True
+                self.stores.append(sf)
+                continue
             if len(loops) != 2 or any(l.kind != 'range' for l in loops):
                 raise AnalysisError(f"store at {e.loc()} is not inside the recognised (interval, sample) range loop nest")
             kctx, ictx = loops
